@@ -155,6 +155,60 @@ def rule_cmp_roles(ctx: Ctx) -> None:
                      func="_create_edge_control_target_attr", construct=f"edge roles: {ci.name} not covered")
 
 
+def rule_cmp_multiedge(ctx: Ctx) -> None:
+    """cmp.multiedge: the circuit DAG is a multigraph — two gates sharing two registers are joined by two parallel edges.
+    edge_match must compare all of them, and the edge attribute must carry the register's role at BOTH ends of the edge,
+    otherwise the second of two consecutive two-qubit gates can be flipped without the comparison noticing."""
+    repo = ctx.repo
+    m = repo.module(CMP)
+    fn = repo.anchor(CMP, "circuit_is_isomorphic.edge_match")
+    ctx.touch(m, fn)
+    e1, e2 = func_params(fn)[:2]
+    first_only = [n for n in ast.walk(fn) if isinstance(n, ast.Call) and isinstance(n.func, ast.Name) and n.func.id == "next"
+                  and n.args and isinstance(n.args[0], ast.Call) and isinstance(n.args[0].func, ast.Name) and n.args[0].func.id == "iter"]
+    all_of = {e: any(isinstance(n, ast.Call) and call_attr(n) in ("values", "items") and norm(n.func.value) == e for n in ast.walk(fn))
+              for e in (e1, e2)}
+    if first_only or not all(all_of.values()):
+        ctx.fail("cmp.multiedge", m, first_only[0] if first_only else fn,
+                 "edge_match inspects only the first of the parallel edges between two operations (`next(iter(e))`); two gates that share two "
+                 "registers are joined by two edges, so the roles on the second edge are never compared", func="circuit_is_isomorphic.edge_match",
+                 construct="edge_match: first parallel edge only")
+    else:
+        ctx.ok("cmp.multiedge", m, fn, what="edge_match compares all parallel edges")
+    ad = repo.anchor(CMP, "add_control_target_to_dag")
+    ctx.touch(m, ad)
+    env = {}
+    for n in ast.walk(ad):
+        if isinstance(n, ast.Assign) and len(n.targets) == 1 and isinstance(n.targets[0], ast.Name):
+            env.setdefault(n.targets[0].id, []).append(n.value)
+    stores = [n for n in ast.walk(ad) if isinstance(n, ast.Assign) and isinstance(n.targets[0], ast.Subscript)
+              and isinstance(n.targets[0].slice, ast.Constant) and n.targets[0].slice.value == "control_target"]
+    if not stores:
+        raise AnalysisError("add_control_target_to_dag: no control_target store")
+    for st in stores:
+        vals = env.get(norm(st.value), [st.value]) if isinstance(st.value, ast.Name) else [st.value]
+        # the assignment that precedes this store
+        v = max((x for x in vals if getattr(x, "lineno", 0) <= st.lineno), key=lambda x: x.lineno, default=vals[-1])
+        two = isinstance(v, ast.Tuple) and len(v.elts) == 2
+
+        def is_role(e):
+            if isinstance(e, ast.Constant) and e.value is None:
+                return True
+            if isinstance(e, ast.Call) and call_attr(e) == "_create_edge_control_target_attr":
+                return True
+            if isinstance(e, ast.Name):
+                return any(isinstance(x, ast.Call) and call_attr(x) == "_create_edge_control_target_attr" for x in env.get(e.id, []))
+            return False
+
+        if two and all(is_role(e) for e in v.elts) and not all(isinstance(e, ast.Constant) for e in v.elts):
+            ctx.ok("cmp.multiedge", m, st, what="edge attribute = (role at source operation, role at target operation)")
+        else:
+            ctx.fail("cmp.multiedge", m, st,
+                     f"the control_target attribute of an edge is `{short(v, 80)}`; it must record the register's role in BOTH operations the edge "
+                     f"joins, otherwise CNOT(a,b);CNOT(a,b) and CNOT(a,b);CNOT(b,a) have the same multiset of edge roles",
+                     func="add_control_target_to_dag", construct=f"add_control_target_to_dag: attribute {short(v, 60)}")
+
+
 NORMALISERS = ("unwrap_nodes", "remove_identity")
 
 
@@ -244,12 +298,20 @@ def run(ctx: Ctx) -> None:
     rule_nodekeys(ctx)  # the label index these functions query (wrapper / identity / gate labels) is maintained by add/remove/replace
     rule_cmp_fields(ctx)
     rule_cmp_roles(ctx)
+    rule_cmp_multiedge(ctx)
     rule_cmp_normalise(ctx)
     ctx.floor("cmp.fields", 10)
     ctx.floor("cmp.normalise", 5)
 
 
 KNOCKOUTS = [
+    Knockout("multiedge-first-only", CMP,
+             sub_once("        roles1 = sorted(str(attr[\"control_target\"]) for attr in e1.values())\n        roles2 = sorted(str(attr[\"control_target\"]) for attr in e2.values())\n        return roles1 == roles2",
+                      "        return e1[next(iter(e1))][\"control_target\"] == e2[next(iter(e2))][\"control_target\"]"),
+             "cmp.multiedge", "first parallel edge"),
+    Knockout("edge-role-target-only", CMP,
+             sub_once("            control_target = (\n                source_role,\n                _create_edge_control_target_attr(op, reg_type, register),\n            )", "            control_target = _create_edge_control_target_attr(op, reg_type, register)"),
+             "cmp.multiedge", "attribute"),
     Knockout("G9-drop-qregisters", CMP,
              sub_once("                control_match = (\n                    op1.q_registers_type == op2.q_registers_type\n                    and op1.q_registers == op2.q_registers\n",
                       "                control_match = (\n                    op1.q_registers_type == op2.q_registers_type\n"),
